@@ -319,6 +319,11 @@ UNSUPPORTED = {
 
 DOT_FAMILY = ("dot", "norm", "normsq", "dist", "relative_error", "rmse", "r_squared", "eq", "m_dot", "m_norm")
 
+def _cp2tt(t):
+    t = t.clone(); t._cp_to_tt()
+    return t
+
+
 def _factor_orth(t, mu):
     t = t.clone(); t.factor_orthogonalize(mu)
     return t
@@ -361,6 +366,7 @@ EITHER = {
     "repeat2": (lambda t, u: t.repeat(*([2] + [1] * (t.dim() - 1))), lambda a, b: np.tile(a, [1, 2] + [1] * (a.ndim - 2))),
     "squeeze": (lambda t, u: tn.squeeze(t), lambda a, b: np.squeeze(a)),
     # the single-factor step called directly (the sweeps convert CP cores first and never reach its CP branch)
+    "cp_to_tt_inplace": (lambda t, u: _cp2tt(t), lambda a, b: a),
     "factor_orthogonalize0": (lambda t, u: _factor_orth(t, 0), lambda a, b: a),
     "factor_orthogonalize_last": (lambda t, u: _factor_orth(t, t.dim() - 1), lambda a, b: a),
     # negative positions count over all axes, the batch axis included
